@@ -285,7 +285,7 @@ func scenarioC05(r *Run) {
 		}
 		st, used := r.probeAgent(teids)
 		live := len(r.LiveSessions())
-		if st.poolHeld != live {
+		if st.poolHeld >= 0 && st.poolHeld != live {
 			r.Violate("C05", "ue-address-not-returned:"+ending, "after the session ended by %s the pool still holds %d address(es) for %d live session(s) (free %d of %d)", ending, st.poolHeld, live, st.poolFree, poolSize)
 			return
 		}
@@ -463,7 +463,7 @@ func scenarioC05UP4(r *Run) {
 				return
 			}
 			// what the PFCP layer took for the attempt is back as well
-			if st, _ := r.probeAgent(nil); st.poolHeld != len(r.LiveSessions()) {
+			if st, _ := r.probeAgent(nil); st.poolHeld >= 0 && st.poolHeld != len(r.LiveSessions()) {
 				r.Violate("C05", "ue-address-not-returned:refused-est", "%s: the pool holds %d address(es) for %d live session(s)", ctx, st.poolHeld, len(r.LiveSessions()))
 				return
 			} else if st.stored != len(r.LiveSessions()) {
@@ -665,7 +665,7 @@ func scenarioC05UP4(r *Run) {
 		}
 		st, used := r.probeAgent(teids)
 		live := len(r.LiveSessions())
-		if st.poolHeld != live {
+		if st.poolHeld >= 0 && st.poolHeld != live {
 			r.Violate("C05", "ue-address-not-returned:"+ending, "%s: the pool still holds %d address(es) for %d live session(s) (free %d of %d)", ctx, st.poolHeld, live, st.poolFree, poolSize)
 			return
 		}
